@@ -4,7 +4,7 @@ import json
 from .. import gen, common
 from . import seqprop
 
-GEN = ['JsonUtilGen.v', 'Decisions.v', 'CacheGen.v']
+GEN = ['JsonUtilGen.v', 'Decisions.v', 'CacheGen.v', 'OpsGen.v']
 DECISIONS = ['Cache._assert_no_repeats', 'Cache._use_cached_operation', 'Cache.created_file', 'Cache.created_norm_cased_file', 'FileBuilder._are_suboperations_cached', 'FileBuilder._build_file_cache_lookup', 'FileBuilder._is_build_file_cached', 'FileBuilder._is_build_file_operation_cached', 'FileBuilder._is_simple_operation_cached', 'FileBuilder._is_subbuild_operation_cached', 'FileBuilder._noneable_file_comparison_result', 'FileBuilder._subbuild_cache_lookup', 'FileBuilder._try_to_reuse_cached_file']
 SITES = False
 ORDER = False
